@@ -597,10 +597,12 @@ func IsNilForMarshaler(v interface{}) bool {
 		return rv.Uint() == 0
 	case reflect.Float32, reflect.Float64:
 		return math.Float64bits(rv.Float()) == 0
-	case reflect.Interface, reflect.Map, reflect.Ptr, reflect.Func:
+	case reflect.Interface, reflect.Ptr, reflect.Func:
 		return rv.IsNil()
-	case reflect.Slice:
+	case reflect.Slice, reflect.Map:
 		return rv.IsNil() || rv.Len() == 0
+	case reflect.Array:
+		return rv.Len() == 0
 	case reflect.String:
 		return rv.Len() == 0
 	}
